@@ -31,6 +31,9 @@ var SimIter uint64
 //go:linkname SimMath runtime.SimMath
 var SimMath uint64
 
+//go:linkname SimStarve runtime.SimStarve
+var SimStarve uint32
+
 //go:linkname SimNoPreempt runtime.SimNoPreempt
 var SimNoPreempt uint32
 
